@@ -1,6 +1,7 @@
 """C18 - reading never writes, and invalid setter arguments never reach the inverter (DESIGN 6/C18)."""
 from __future__ import annotations
 
+import asyncio
 import random
 
 from sim.net import World
@@ -20,7 +21,9 @@ RULE = ("Monitor in the PEER: every frame it receives (including frames lost in 
         "get_operation_modes, get_operation_mode, get_ongrid_battery_dod over a stride of the complete C15 "
         "configuration space (all model tags, power classes, refused-block combinations), half of them under C04's "
         "fault alphabet (retries must not turn into writes) and half of them AFTER valid setter calls on the same "
-        "object (work mode, export limit, eco-mode charge ...), so that state left by writes cannot leak into reads; "
+        "object (work mode, export limit, eco-mode charge ...), so that state left by writes cannot leak into reads; a "
+        "third of them with CALLER-SIDE CANCELLATION of read-only calls after 0-3 loop iterations or a short while "
+        "(what asyncio.wait_for around a call does), including while a TCP connect is in progress; "
         "(b) invalid arguments: set_grid_export_limit, set_ongrid_battery_dod, set_operation_mode(ECO_CHARGE/"
         "ECO_DISCHARGE, power, soc) and write_setting(unknown id) with integer arguments swept over [-70000, 70000] "
         "around the valid intervals (all boundary values +-3, powers of two, seeded values): no write frame at all, "
@@ -73,14 +76,17 @@ def make_case(tier, seed, index):
         else:
             case["faults"] = []
         case["lossy"] = False
+        case["cancel"] = index % 3 == 1
+        if case["cancel"] and case["transport"] == "tcp":
+            case["connects_slow"] = True
         return case
     index -= nr
     if index < 40:
         return {"kind": "entry", "which": ["connect:ET", "connect:DT", "connect:ES", "discover"][index % 4],
                 "seed": index, "transport": "udp"}
     index -= 40
-    fam = ["ET", "ES", "DT"][index % 3]
-    kind = INVALID_KINDS[(index // 3) % len(INVALID_KINDS)]
+    fam = ["ET", "ES", "DT", "ETv1"][index % 4]
+    kind = INVALID_KINDS[(index // 4) % len(INVALID_KINDS)]
     base = {"export": [-1, -2, -3, -70000, -32768, -32769, -65536, -65537, -(1 << 31)],
             "dod": [-1, -2, 101, 102, 103, 255, 256, 65536, 70000, -70000, -128, 128, 1000],
             "eco_power": [-1, -2, 101, 102, 256, 1000, 70000, -70000, -100, 200],
@@ -176,11 +182,34 @@ def run_readonly(case):
     ro_labels = set()
     calls = []
 
-    async def ro(name, fn):
+    ncall = [0]
+
+    async def ro(name, fn, force_cancel=None):
         label = "RO:" + name
         ro_labels.add(label)
         dev.label = label
-        rec = await C.do_call(world, label, fn)
+        ncall[0] += 1
+        cancel_after = force_cancel
+        if force_cancel is None and case.get("cancel") and name != "read_device_info" and (ncall[0] * 7 + case["seed"]) % 3 == 0:
+            # the CALLER gives up: the task is cancelled after a few loop iterations / a short while (wait_for-style)
+            cancel_after = [0, 1, 2, 3, 0.0005, 0.002, 0.05, 0.3][(ncall[0] + case["seed"]) % 8]
+        if cancel_after is None:
+            rec = await C.do_call(world, label, fn)
+        else:
+            task = asyncio.ensure_future(C.do_call(world, label, fn))
+            task.set_name("ro-call")
+            if isinstance(cancel_after, int):
+                for _ in range(cancel_after):
+                    await asyncio.sleep(0)
+            else:
+                await asyncio.sleep(cancel_after)
+            task.cancel()
+            try:
+                rec = await task
+            except asyncio.CancelledError:
+                rec = {"outcome": "cancelled"}
+            # let the library finish whatever the swallowed cancellation started
+            await asyncio.sleep(5.0)
         dev.label = None
         calls.append((name, rec["outcome"]))
         return rec
@@ -204,7 +233,21 @@ def run_readonly(case):
             for sid in ("grid_export", "shadow_scan", "work_mode", "grid_export_limit"):
                 if sid in {s.id_ for s in inv.settings()} and fam != "ES":
                     await rw("write_setting", lambda sid=sid: inv.write_setting(sid, 1))
-        world.net.begin_script(case["faults"], {"k": "ok"})
+        world.net.begin_script(case["faults"], {"k": "ok"}, [], {"k": "ok", "d": 0.01} if case.get("connects_slow") else None)
+        if case["after_setters"] and case.get("cancel"):
+            # a write, then IMMEDIATELY a read-only call that its caller cancels while it is being set up
+            points = [1, 2, 3, 0.0005, 0.002, 0.011, 0.05]
+            pairs = [("set_grid_export_limit", lambda: inv.set_grid_export_limit(2), "get_grid_export_limit", inv.get_grid_export_limit)]
+            if fam != "DT":
+                pairs.append(("set_ongrid_battery_dod", lambda: inv.set_ongrid_battery_dod(50), "get_ongrid_battery_dod",
+                              inv.get_ongrid_battery_dod))
+                pairs.append(("set_operation_mode", lambda: inv.set_operation_mode(gw.OperationMode.GENERAL),
+                              "get_operation_mode", inv.get_operation_mode))
+                pairs.append(("set_operation_mode", lambda: inv.set_operation_mode(gw.OperationMode.BACKUP),
+                              "read_runtime_data", inv.read_runtime_data))
+            for j, (sn, sf, gn, gf) in enumerate(pairs * 2):
+                await rw(sn, sf)
+                await ro(gn, gf, force_cancel=points[(j + case["seed"]) % len(points)])
         for name in READ_CALLS:
             if name == "read_sensor":
                 ids = [s.id_ for s in inv.sensors()]
@@ -280,7 +323,12 @@ def run_invalid(case):
     if fam == "ES":
         tr = "udp"
     world = World(max_steps=1_000_000)
-    dev, inv = _build(goodwe, fam, tr, seed=case["seed"])
+    if fam == "ETv1":
+        # firmware without the 12-byte eco groups: the probe of 47547 is refused
+        dev, inv = _build(goodwe, "ET", tr, caps=("battery",), seed=case["seed"])
+        fam = "ET"
+    else:
+        dev, inv = _build(goodwe, fam, tr, seed=case["seed"])
     world.net.add_device(C.HOST, C.port_of(tr), dev)
     world.events = _Quiet()
     violations = []
